@@ -13,7 +13,8 @@ Local Open Scope nat_scope.
 
 (* ------------------------------------------------------------------ discover.go *)
 (* one item of the keep_services/accessible list *)
-Record ksvc := { k_uuid : string; k_host : string; k_port : N; k_ssl : bool; k_type : string; k_ro : bool }.
+(* (the uuid is only a map key: items are identified by their index in the list; uuids are assumed distinct) *)
+Record ksvc := { k_host : string; k_port : N; k_ssl : bool; k_type : string; k_ro : bool }.
 
 (* fmt.Sprintf("%s://%s:%d", scheme, service.Hostname, service.Port) *)
 Definition svc_url (s : ksvc) : string :=
